@@ -217,8 +217,9 @@ Fixpoint sparse_split (cols : list (list bool)) : option (list bool * list (list
            end
   end.
 
-(* a repaired _sparse_adder that never raises: an empty leading column passes a
-   constant 0, and when no column has height 2 there is nothing left to add *)
+(* _sparse_adder since fix be08f74, which never raises: an empty leading column
+   passes a constant 0, and when no column has height 2 there is nothing left to
+   add (the for/else returns concat_list(result)) *)
 Fixpoint sparse_split_total (cols : list (list bool)) : option (list bool * list (list bool)) :=
   match cols with
   | [] => Some ([], [])
@@ -239,11 +240,13 @@ Definition sparse_adder_with (split : list (list bool) -> option (list bool * li
       Some (pre ++ add (map (fun c => nth 0 c false) z) (map (fun c => nth 1 c false) z))
   end.
 
-(* FIXABLE SPOT (_sparse_adder raising when no column has height 2): the code
-   as it is = sparse_split; a repaired version = sparse_split_total (then also
-   switch the lemma used in ReducerProofs.sparse_adder_spec). *)
+(* SWITCH POINT (_sparse_adder raising when no column has height 2).  Before fix
+   be08f74 the code was sparse_adder_with sparse_split (None = IndexError); since
+   the fix it is sparse_adder_with sparse_split_total, the model of record.  (The
+   lemma used in ReducerProofs.sparse_adder_spec switches with it:
+   sparse_split_ok / sparse_split_total_ok.) *)
 Definition sparse_adder : adder -> list (list bool) -> option (list bool) :=
-  sparse_adder_with sparse_split.
+  sparse_adder_with sparse_split_total.
 
 Definition maxheight (cols : list (list bool)) : nat :=
   fold_right (fun c m => Nat.max (length c) m) O cols.
